@@ -398,6 +398,12 @@ func main() {
 			}
 			vers = append(vers, ver{root, snap})
 		}
+		// sometimes everything committed so far has left the memtable (a flush, as on every restart or when the memtable fills up):
+		// reads at a version then go through the sstable block filters
+		if r.Chance(50) {
+			_ = s.DB().Flush()
+			st.ByKind["store-flushed-before-proofs"]++
+		}
 		for vi, vv := range vers {
 			ro, err := s.NewReadOnly(uint64(vi + 1))
 			if err != nil {
